@@ -61,28 +61,28 @@ PROPS = {
     ),
     'C07': dict(
         title='intersect is set intersection',
-        obligations=WF_EST + ORDER + BOUNDS + RANGE_SPEC + ['fn:BoundSet::intersect', 'fn:Range::intersect', 'fn:lemma_gate_intersect', 'fn:lemma_c07_commutes', 'fn:lemma_c07_idempotent', 'fn:lemma_c07_release_sat', 'fn:lemma_c07_prerelease'],
+        obligations=WF_EST + SAT + ORDER + BOUNDS + RANGE_SPEC + ['fn:BoundSet::intersect', 'fn:Range::intersect', 'fn:lemma_gate_intersect', 'fn:lemma_c07_commutes', 'fn:lemma_c07_idempotent', 'fn:lemma_c07_release_sat', 'fn:lemma_c07_prerelease'],
         assumptions=[STD],
         not_decided=[],
         witness='c07',
     ),
     'C08': dict(
         title='difference is set difference',
-        obligations=WF_EST + ORDER + BOUNDS + RANGE_SPEC + ['fn:BoundSet::intersect', 'fn:BoundSet::difference', 'fn:Range::difference', 'fn:Range::intersect', 'fn:lemma_c08_partition', 'fn:lemma_c08_release_sat', 'fn:lemma_c08_disjoint_from_b'],
+        obligations=WF_EST + SAT + ORDER + BOUNDS + RANGE_SPEC + ['fn:BoundSet::intersect', 'fn:BoundSet::difference', 'fn:Range::difference', 'fn:Range::intersect', 'fn:lemma_c08_partition', 'fn:lemma_c08_release_sat', 'fn:lemma_c08_disjoint_from_b'],
         assumptions=[STD],
         not_decided=['prerelease membership of a \\ b is decided against the relation rdiff_post (bounds of a, outside the bounds of b, gate of a); that this relation is the intended reading for prereleases is taken from the property text'],
         witness='c08',
     ),
     'C09': dict(
         title='allows_any is overlap',
-        obligations=WF_EST + ORDER + BOUNDS + RANGE_SPEC + ['fn:BoundSet::allows_any', 'fn:Range::allows_any', 'fn:BoundSet::intersect', 'fn:Range::intersect', 'fn:lemma_c09_symmetric', 'fn:lemma_c09_disjoint', 'fn:lemma_c09_touching', 'fn:lemma_c09_common_version'],
+        obligations=WF_EST + SAT + ORDER + BOUNDS + RANGE_SPEC + ['fn:BoundSet::allows_any', 'fn:Range::allows_any', 'fn:BoundSet::intersect', 'fn:Range::intersect', 'fn:lemma_c09_symmetric', 'fn:lemma_c09_disjoint', 'fn:lemma_c09_touching', 'fn:lemma_c09_common_version'],
         assumptions=[STD],
         not_decided=[],
         witness='c09',
     ),
     'C10': dict(
         title='allows_all guarantees containment',
-        obligations=WF_EST + ORDER + BOUNDS + RANGE_SPEC + ['fn:BoundSet::allows_all', 'fn:Range::allows_all', 'fn:BoundSet::allows_any', 'fn:Range::allows_any', 'fn:BoundSet::intersect', 'fn:BoundSet::difference', 'fn:Range::difference',
+        obligations=WF_EST + SAT + ORDER + BOUNDS + RANGE_SPEC + ['fn:BoundSet::allows_all', 'fn:Range::allows_all', 'fn:BoundSet::allows_any', 'fn:Range::allows_any', 'fn:BoundSet::intersect', 'fn:BoundSet::difference', 'fn:Range::difference',
                                                    'fn:lemma_c10_contained', 'fn:lemma_c10_implies_any', 'fn:lemma_c10_reflexive', 'fn:lemma_c10_difference_none'],
         assumptions=[STD],
         not_decided=[],
@@ -104,7 +104,7 @@ PROPS = {
     ),
     'C15': dict(
         title='set algebra identities across compositions',
-        obligations=WF_EST + ORDER + BOUNDS + RANGE_SPEC + ['fn:BoundSet::intersect', 'fn:BoundSet::difference', 'fn:Range::intersect', 'fn:Range::difference',
+        obligations=WF_EST + SAT + ORDER + BOUNDS + RANGE_SPEC + ['fn:BoundSet::intersect', 'fn:BoundSet::difference', 'fn:Range::intersect', 'fn:Range::difference',
                                                    'fn:lemma_c15_commutative', 'fn:lemma_c15_associative', 'fn:lemma_c15_idempotent', 'fn:lemma_c15_a_minus_a', 'fn:lemma_c15_diff_disjoint', 'fn:lemma_c15_partition', 'fn:lemma_c15_double_difference'],
         assumptions=[STD],
         not_decided=['results are printable and re-parsable (text shell)', 'for prereleases the identities are proved over `within` (bounds) and, where the property says so, over satisfaction with the opt-in gate the operands carry; identities between printed forms are not claimed'],
